@@ -5,5 +5,8 @@ ok = True
 for t in ('cbmc', 'goto-cc', 'goto-instrument', 'g++'):
     if not shutil.which(t):
         print('missing tool', t); ok = False
+for t in ('gcc', 'objcopy', 'cmake'):
+    if not shutil.which(t):
+        print('note: %s not found - native replay of counterexamples will report no-failing-input-found' % t)
 print(subprocess.run(['cbmc', '--version'], capture_output=True, text=True).stdout.strip())
 sys.exit(0 if ok else 1)
